@@ -1,13 +1,15 @@
 """C11 — thread safety of the JIT memory manager and of independent code generation (DESIGN.md section 6, C11)."""
 import re
 import subprocess
+import time
 import vlib
 import ast_locks
 import gen_globals
 import gen_statics
+import ast_statics
 
 PID = "C11"
-MODS = ["AsmjitVerif.Props.C11"]
+MODS = ["AsmjitVerif.Props.C11", "AsmjitVerif.Props.C11Static"]
 MANIFEST = {
     "technique": "Lean 4: lock-discipline / no-mutable-globals / static-reference theorems by kernel evaluation over data regenerated from the "
                  "clang AST, nm and objdump of the current tree; C09's sequential allocator model instantiated as the critical section of a "
@@ -21,7 +23,12 @@ MANIFEST = {
             "thread-locals, and every relocation from machine code into a writable data section comes from a reviewed init-once accessor of "
             "cpuinfo.cpp / virtmem.cpp or names a verification hook variable - so CodeHolder, emitters, Builder, Compiler, register allocator and "
             "formatter code references const tables only (all_writable_statics_reviewed, only_reviewed_accessors_touch_statics, "
-            "codegen_units_share_nothing). (c) Generic theorems: operations that are atomic critical sections make every interleaving of any "
+            "codegen_units_share_nothing); from clang's AST every such object is a std::atomic, a host-information record published by an atomic "
+            "flag inside its init-once accessor (write only in the `if (!flag.load())` block, before the store) or a hook variable "
+            "(writable_statics_are_atomic_or_published, init_once_publish_discipline); the lock is a pthread mutex held for LockGuard's scope "
+            "(lock_is_a_pthread_mutex); both JitAllocator::write overloads, the scoped writes and WriteScope reach the bookkeeping only under "
+            "the lock (write_paths_disciplined); JitAllocator::_impl / JitRuntime::_allocator are assigned by constructors only; the anchored "
+            "table units own no writable object; the VirtMem protect/flush helpers keep no static state. (c) Generic theorems: operations that are atomic critical sections make every interleaving of any "
             "number of threads a sequential history in per-thread program order (atomic_ops_linearise, program_order, invariant_under_every_"
             "schedule[_wf]); instantiated with C09's actual step function as the critical section and alloc's lock-free prefix (alignment to "
             "the immutable granularity, range check) as pre-phase: after EVERY schedule of ANY number of threads the allocator state is a "
@@ -33,7 +40,9 @@ MANIFEST = {
             "to C09's model (must give identical answers, statistics and final private block state: model = implementation on the linearised "
             "history) and checks in Lean that each thread's program order, with the results the caller saw, is exactly that thread's "
             "projection of the history. Without the hook the real-time trace monitor (no two spans owned at the same time intersect) is used. "
-            "Per-thread x86-64 and AArch64 Assembler/Builder/Compiler output (with logger text) equals the single-threaded output.",
+            "Per-thread x86-64 and AArch64 Assembler/Builder/Compiler output (with logger text) equals the single-threaded output. Threads "
+            "with private dual-mapped allocators on a 'kernel without memfd_create' (syscall wrapped to answer ENOSYS) exercise the first use of "
+            "the fallback path under TSan (finding C11-1).",
     "note": "Trusted: tools/ast_locks.py (event extraction; the analysis itself is Lean), objdump/nm, the mutex providing mutual exclusion, the "
             "reviewed lists (immutable fields, init-once globals and their accessors, thread-safe entry points) in Props/C11.lean, the hook H2 "
             "call sites being at the end of the critical sections (18 guarded lines, fixes/H2-hook.patch). Races the C++ memory model decides "
@@ -45,6 +54,8 @@ MANIFEST = {
 #                threads, ops/thread, options, granularity, yield level
 CONFIGS_QUICK = [(2, 1500, 0x0, 64, 1), (4, 1200, 0x1, 64, 2), (8, 800, 0x2 | 0x4, 64, 1), (16, 400, 0x8, 128, 3), (6, 800, 0x20, 256, 0),
                  (3, 900, 0x2 | 0x4 | 0x8, 64, 2)]
+DEADLINE = [float("inf")]
+WRAP = ["-Wl,--wrap=syscall"]     # the harness answers ENOSYS to memfd_create in its `nomemfd` op
 TSAN_ENV = {"TSAN_OPTIONS": "halt_on_error=0:exitcode=66:second_deadlock_stack=1:history_size=7"}
 
 
@@ -112,6 +123,9 @@ def run_threads(h, runs, res, label, env=None):
     """returns list of problems [(run line, message)]"""
     problems = []
     for (n, ops, opts, gran, yl, seed) in runs:
+        if time.time() > DEADLINE[0]:      # wall-clock budget of the tier (machine load varies): the rest is counted, not run
+            res.coverage["runs_skipped_for_time"] = res.coverage.get("runs_skipped_for_time", 0) + 1
+            continue
         line = "run %d %d %d %x %d %d" % (n, ops, seed, opts, gran, yl)
         out, rc, err = vlib.run_lines([str(h)], [line], timeout=900, env=env or TSAN_ENV)
         if "ThreadSanitizer" in err:
@@ -147,7 +161,10 @@ def generate():
     vlib.gen_write("AsmjitVerif/Gen/LockMap.lean", ast_locks.render(funcs, fields))
     d, plain = vlib.ensure_lib("plain")
     vlib.gen_write("AsmjitVerif/Gen/Globals.lean", gen_globals.render(gen_globals.collect(plain)))
-    vlib.gen_write("AsmjitVerif/Gen/StaticRefs.lean", gen_statics.render(*gen_statics.collect(d / "obj")))
+    w, t, r = gen_statics.collect(d / "obj")
+    vlib.gen_write("AsmjitVerif/Gen/StaticRefs.lean", gen_statics.render(w, t, r))
+    vlib.gen_write("AsmjitVerif/Gen/StaticDecls.lean", ast_statics.render(ast_statics.decl_types(vlib.REPO, w), ast_statics.publish_events(vlib.REPO),
+                                                                          ast_statics.lock_calls(vlib.REPO)))
 
 
 def run(res):
@@ -171,6 +188,12 @@ def run(res):
             vlib.gen_write("AsmjitVerif/Gen/StaticRefs.lean", gen_statics.render(w, t, r))
             res.coverage["static_refs"] = {"writable_objects": len(w), "thread_locals": len(t), "code_references_into_writable_sections": len(r),
                                            "functions_referencing": sorted({x[1].split("(")[0] for x in r if not x[2].startswith("asmjit_verif_")})}
+            try:
+                decls, pubs, locks = ast_statics.decl_types(vlib.REPO, w), ast_statics.publish_events(vlib.REPO), ast_statics.lock_calls(vlib.REPO)
+                vlib.gen_write("AsmjitVerif/Gen/StaticDecls.lean", ast_statics.render(decls, pubs, locks))
+                res.coverage["static_decl_types"] = {d[1]: d[2] for d in decls}
+            except Exception as e:
+                broken.append("translator ast_statics: %s" % e)
         except Exception as e:
             broken.append("translator gen_statics: %s" % e)
     except vlib.BuildError:
@@ -184,7 +207,9 @@ def run(res):
             broken.append("theorem %s (%s:%s) no longer checks: %s" % (ft.get("decl"), ft.get("file"), ft.get("line"), ft.get("msg")))
         vlib.lake_build(["vdriver"])
     res.assumptions += ["the mutex (pthread) provides mutual exclusion", "clang-14 AST faithfully lists member accesses and calls in source order",
-                        "init-once statics are benign (atomic flags); the property itself is stated 'once the host information has been initialised'",
+                        "host information = CpuInfo::host() and VirtMem::info(): both are initialised by constructing any JitRuntime/JitAllocator on one thread; "
+                        "their first-use double initialisation (two threads both finding the atomic flag clear write the record) is the race the "
+                        "property excludes ('once the host information has been initialised'); every other process-wide cache must be a std::atomic",
                         "objdump lists every relocation of the code sections; data-to-data references are not followed"]
     res.coverage["linearisation"] = ("hook H2 present: every critical section recorded in lock order; history replayed by C09's model and judged by "
                                      "C09's monitor; program order checked by the Lean driver") if hook else \
@@ -194,35 +219,52 @@ def run(res):
         vlib.log("[C11] hook H2 absent in this tree: falling back to the real-time trace monitor")
 
     quick = res.tier == "quick"
+    DEADLINE[0] = time.time() + (170 if quick else 13 * 60)      # threaded part only; build and Lean come before
     cfgs = list(CONFIGS_QUICK)
     if not quick:
-        cfgs = [(n, ops * 3, o, g, y) for (n, ops, o, g, y) in CONFIGS_QUICK] + \
-            [(rng.choice((2, 3, 5, 7, 12, 16)), 2500, rng.randrange(64) & ~0x10, rng.choice((64, 128, 256)), rng.randrange(4)) for _ in range(12)]
+        cfgs = [(n, ops * 2, o, g, y) for (n, ops, o, g, y) in CONFIGS_QUICK] + \
+            [(rng.choice((2, 3, 5, 7, 12, 16)), 2000, rng.randrange(64) & ~0x10, rng.choice((64, 128, 256)), rng.randrange(4)) for _ in range(8)]
     runs = [(n, ops, o, g, y, rng.randrange(1 << 30)) for (n, ops, o, g, y) in cfgs]
     if broken:   # a broken obligation: search harder for a witness
-        runs = runs + [(16, 3000, o, g, 2, rng.randrange(1 << 30)) for (_, _, o, g, _) in CONFIGS_QUICK[:5]]
+        runs = runs + [(16, 1200 if quick else 3000, o, g, 2, rng.randrange(1 << 30)) for (_, _, o, g, _) in CONFIGS_QUICK[:3 if quick else 5]]
     res.coverage["rule"] = ("threads x ops x allocator options x granularity x yield level from a fixed list plus seeded random ones; an evaluation = "
                             "one allocation record of the real-time trace or one critical section of the linearised history judged by a Lean "
                             "monitor; non-trivial = run with >= 2 threads whose trace has spans from every thread; runs are repeated under "
                             "ThreadSanitizer (history_size=7) with other seeds, thread counts 2..16 and random yields")
     flags = ["-DC11_H2"] if hook else []
-    h_asan = vlib.build_harness("c11", "asan", extra_flags=flags)
+    h_asan = vlib.build_harness("c11", "asan", extra_flags=flags, link_flags=WRAP)
     problems = run_threads(h_asan, runs, res, "asan")
-    h_tsan = vlib.build_harness("c11", "tsan", extra_flags=flags)
+    h_tsan = vlib.build_harness("c11", "tsan", extra_flags=flags, link_flags=WRAP)
     # schedule diversity under TSan: other seeds, every thread count 2..16 over the tiers, all yield levels
     if quick:
-        tcfg = [(2, 500, 0x0, 64, 2), (5, 400, 0x2 | 0x4, 64, 1), (16, 150, 0x8, 128, 3), (rng.randrange(3, 16), 300, 0x1, 64, rng.randrange(4))]
+        tcfg = [(2, 1200, 0x8, 64, 2), (5, 900, 0x2 | 0x4, 64, 1), (16, 300, 0x8, 128, 3), (rng.randrange(3, 16), 600, 0x1, 64, rng.randrange(4))]
     else:
-        tcfg = [(n, 500, rng.choice((0x0, 0x1, 0x2 | 0x4, 0x8, 0x2 | 0x8, 0x4 | 0x20)), rng.choice((64, 128, 256)), rng.randrange(4)) for n in range(2, 17)]
-        tcfg += [(n, ops, o, g, y) for (n, ops, o, g, y) in CONFIGS_QUICK]
+        tcfg = [(n, 300, rng.choice((0x0, 0x1, 0x2 | 0x4, 0x8, 0x2 | 0x8, 0x4 | 0x20)), rng.choice((64, 128, 256)), rng.randrange(4)) for n in range(2, 17)]
+        tcfg += [(n, ops // 2, o, g, y) for (n, ops, o, g, y) in CONFIGS_QUICK]
     truns = [(n, ops, o, g, y, rng.randrange(1 << 30)) for (n, ops, o, g, y) in tcfg]
     if broken:
-        truns += [(16, 1500, o, g, 3, rng.randrange(1 << 30)) for (_, _, o, g, _) in CONFIGS_QUICK[:4]]
+        truns += [(n, 700 if quick else 1200, o, g, y, rng.randrange(1 << 30)) for (n, y, (_, _, o, g, _)) in
+                  zip((16, 8, 4, 12), (2, 1, 3, 0), CONFIGS_QUICK[:3 if quick else 4])]
     problems += run_threads(h_tsan, truns, res, "tsan")
     if hook and not problems:
         # the hook callback must not hide anything from TSan: the same binary's sibling without the hook (plain trace mode)
-        h_tsan0 = vlib.build_harness("c11", "tsan")
-        problems += run_threads(h_tsan0, truns[:2] if quick else truns[:8], res, "tsan-nohook")
+        h_tsan0 = vlib.build_harness("c11", "tsan", link_flags=WRAP)
+        problems += run_threads(h_tsan0, truns[:2] if quick else truns[:5], res, "tsan-nohook")
+    # first use of the dual-mapping fallback (no memfd_create) by several private allocators at once: finding C11-1
+    for (hh, label) in ((h_tsan, "tsan"), (h_asan, "asan")):
+        lines = ["nomemfd %d %d" % (n, 3) for n in ((16, 4, 12, 8, 2, 16, 4, 8, 3, 12, 8, 6, 16, 4, 12, 8) if quick else (16, 4, 12, 8, 2, 16, 4, 8, 3, 12, 8, 6, 16, 4, 12, 8) * 3)]
+        for line in (lines if label == "tsan" else lines[:2]):
+            if any("memfd-flag" in m for _, m in problems):
+                break      # one witness is enough (each process can show the first-use race once)
+            out, rc, err = vlib.run_lines([str(hh)], [line], timeout=600, env=TSAN_ENV)
+            res.coverage["nomemfd_runs"] = res.coverage.get("nomemfd_runs", 0) + 1
+            if "ThreadSanitizer" in err:
+                m = re.search(r"WARNING: ThreadSanitizer: ([^\n]*)\n((?:.*\n){0,12})", err)
+                what = (m.group(1) + " | " + " ".join(m.group(2).split())[:600]) if m else err[-600:]
+                tag = "memfd-flag" if ("AnonymousMemory" in err or "memfd" in err) else "nomemfd"
+                problems.append((line, "%s-%s: ThreadSanitizer: %s" % (label, tag, what)))
+            elif rc != 0 or not out or not out[-1].startswith("nomemfd errors=0 "):
+                problems.append((line, "%s-nomemfd: private dual-mapped allocators without memfd_create: rc=%d %s %s" % (label, rc, out[-1:] , err[-400:])))
     res.coverage["distinct_nontrivial"] = len(set(runs)) + len(set(truns))
     res.coverage.setdefault("input_distribution", {}).update(
         {"runs": len(runs) + len(truns), "threads": sorted({r[0] for r in runs + truns}), "options": sorted({r[2] for r in runs + truns}),
@@ -243,7 +285,7 @@ def run(res):
 def replay(data):
     _, plain = vlib.ensure_lib("plain")
     flags = ["-DC11_H2"] if have_hook(plain) else []
-    h = vlib.build_harness("c11", "tsan", extra_flags=flags)
+    h = vlib.build_harness("c11", "tsan", extra_flags=flags, link_flags=WRAP)
     for line in data["replay"].get("ops", []):
         out, rc, err = vlib.run_lines([str(h)], [line], env=TSAN_ENV)
         print(line, "->", out[-1:] if out else None, rc, err[-800:])
